@@ -290,6 +290,28 @@ def eval_ieee(roots, env):
     return val
 
 
+def eval_exact(roots, env):
+    """Evaluate arithmetic-only nodes exactly in rational arithmetic (the real-number reading of the operations).
+    env: var name -> Fraction / int / float (floats are taken at their exact binary value)."""
+    from fractions import Fraction
+    val = {}
+    for n in topo(roots):
+        op = n.op
+        if op == "const":
+            v = Fraction(n.args[0])
+        elif op == "var":
+            v = Fraction(env[n.args[0]])
+        elif op in ("add", "sub", "mul", "div"):
+            a, b = val[n.args[0].id], val[n.args[1].id]
+            v = a + b if op == "add" else a - b if op == "sub" else a * b if op == "mul" else a / b
+        elif op == "neg":
+            v = -val[n.args[0].id]
+        else:
+            raise ValueError("eval_exact: " + op)
+        val[n.id] = v
+    return val
+
+
 def fcmp_eval(pred, a, b):
     unord = (a != a) or (b != b)
     base = pred[1:]
